@@ -28,6 +28,7 @@ ASSUMPTIONS = ["configs are built through Config::builder().build (valid: unique
                "is canonicalised (multiset comparison); the Coq theorem fixes the order as well",
                "appender filters are C03's subject: no appender here has a filter; failing appenders record the "
                "call and return Err (the error-handler calls themselves are C03's subject)"]
+RELEASE_TOO = True          # the cases also run through the release-profile harness (see ./check)
 EXHAUSTIVE = {"quick": False, "thorough": False}
 
 POOL = ["a", "b", "ab", "a::a", "a::b", "a::ab", "ab::a", "a::b::a", "a::b::ab", "a::a::b", "::a", "::a::b"]
@@ -152,6 +153,13 @@ def cases(rng, tier):
                     c[3] = [[t, L] for L in range(1, 6) for t in (nx, ny, nx + "::k", ny + "::k", ny, nx)]
                     del c[5:]
                     out.append(c)
+    # a WIDE configuration: more appenders than a 16-bit index can address, the attached ones declared last
+    for n_apps in ([65540] if tier == "quick" else [65540, 70000, 131080]):
+        wide = ["w%d" % i for i in range(n_apps)]
+        loggers = [["svc", 3, 1, [wide[65536], wide[n_apps - 1]]], ["svc::db", 5, 0, [wide[65537], wide[1]]]]
+        c = [wide, [2, [wide[65538], wide[0]]], loggers,
+             [[t, L] for t in ("svc", "svc::db", "svc::db::x", "other", "") for L in (1, 3, 5)], []]
+        out.append(c)
     # random configs
     n_rand = 1200 if tier == "quick" else 30000
     for _ in range(n_rand):
